@@ -1,0 +1,13 @@
+//go:build verif
+
+// Contracts for govc (the /verif contract verifier). Comment-only: with the build tag off this file is not
+// compiled, with it on it adds no code.
+package eager
+
+// C06 (output side): the csv / json printer. A row the format fails to write fails the callback (and with it the
+// query); a failing source fails Run; the buffered output reaches stdout by the final Flush, whose failure fails Run.
+//@ func (*OutputPrinter).Run
+//@   stream 1 step IN writeerr: lastres(Write) != nil ==> stepErr != nil
+//@   stream 1 step IN once: calls(Write) == old(calls(Write)) + 1
+//@   ensures errprop: runErr != nil ==> result != nil
+//@   ensures flusherr: runErr == nil && lastres(Flush) != nil ==> result != nil
